@@ -1,4 +1,5 @@
 mod catalog;
+mod io;
 mod mem;
 mod replay;
 mod shape;
@@ -55,7 +56,13 @@ fn one_cmd(args: &[String]) {
         None => v["props"].as_array().map(|a| a.iter().filter_map(|x| x.as_str().map(String::from)).collect()).unwrap_or_default(),
     };
     let case = if v.get("case").is_some() { v["case"].clone() } else { v.clone() };
-    let eng = Engine::new(props);
+    let mut eng = Engine::new(props);
+    if let Some(h) = v.get("header") {
+        eng.headers.push(h.clone());
+    }
+    if let Some(h) = case.get("header") {
+        eng.headers.push(h.clone());
+    }
     let mut out = Out::default();
     eng.run_case(&case, &mut out);
     for viol in &out.violations {
@@ -107,7 +114,24 @@ fn replay_cmd(args: &[String]) {
         });
     }
 
-    let eng = Engine::new(props);
+    let mut eng = Engine::new(props);
+    // first pass: header cases of the IO models (streams, message lists)
+    {
+        let f = BufReader::with_capacity(1 << 20, std::fs::File::open(&cases).expect("open cases"));
+        for line in f.lines().flatten() {
+            if line.contains("iostream") || line.contains("iomsgs") {
+                if let Some(c) = parse_case_line(&line) {
+                    if c["k"] == "iostream" || c["k"] == "iomsgs" {
+                        eng.headers.push(c);
+                    }
+                }
+            }
+        }
+    }
+    let traces_out = arg(args, "--traces");
+    if traces_out.is_some() {
+        eng.trace_sink = Some(std::cell::RefCell::new(vec![]));
+    }
     let mut out = Out::default();
     let mut kept: Vec<Value> = vec![];
     let mut by_sig: BTreeMap<String, (u64, Value)> = BTreeMap::new();
@@ -163,6 +187,12 @@ fn replay_cmd(args: &[String]) {
         "counts": out.counts, "samples": out.samples, "violations": kept, "signatures": sigs,
     });
     std::fs::write(&outp, serde_json::to_string(&res).unwrap()).expect("write out");
+    if let (Some(tp), Some(sink)) = (traces_out, &eng.trace_sink) {
+        let mut f = std::io::BufWriter::new(std::fs::File::create(tp).expect("traces file"));
+        for t in sink.borrow().iter() {
+            let _ = writeln!(f, "{}", t);
+        }
+    }
     if let Some(p) = &progress {
         let _ = std::fs::write(p, "done\n");
     }
